@@ -1286,6 +1286,9 @@ func init() {
 			if len(cells) < 576 {
 				return []string{fmt.Sprintf("only %d of 576 (type, holding) cells executed", len(cells))}
 			}
+			if len(c.Matrix["C10_near_holders"]) < 15 {
+				return []string{fmt.Sprintf("near-holder submitters: %d types", len(c.Matrix["C10_near_holders"]))}
+			}
 			if len(c.Matrix["C10_previous_holder"]) < 40 {
 				return []string{"previous-holder cases missing"}
 			}
